@@ -85,20 +85,21 @@ theorem mainSpec_arity (s : CliSpec) (h : OptsStd s) :
 /-- every binding the extended parser makes is typed by one of the sub-command's options -/
 theorem parseX_typed (s : CliSpec) (h : OptsStd s) (argv : List String) (b : Ns) (hp : parseX s argv = .ok b) :
     ∀ q ∈ b, ∃ o ∈ s.opts, RB o q := by
-  have hK : EngInv (mainBind s) (fun o => o ∈ s.opts) (fun _ ns => ∀ q ∈ ns, ∃ o ∈ s.opts, RB o q) := by
+  have hK : EngInv (mainBind s) (fun o => o ∈ s.opts) (fun o => o ∈ s.opts)
+      (fun _ ns => ∀ q ∈ ns, ∃ o ∈ s.opts, RB o q) := by
     refine ⟨?_, ?_⟩ <;>
     · intro o toks b' ps ns ho hb hk q hq
       rcases List.mem_append.1 hq with hq | hq
       · rw [mainBind_std' s o (h o ho)] at hb
         exact ⟨o, ho, (bindBase_typed o (h o ho) toks b' hb).1 q hq⟩
       · exact hk q hq
-  exact engine_inv hK (mainSpec s) (mainSpec_arity s h) (fun o ho => mainSpec_mem s o ho) argv b
-    (by intro q hq; simp at hq) hp
+  exact engine_inv hK (mainSpec s) (mainSpec_arity s h) (fun o ho => mainSpec_mem s o (by simp [ho]))
+    (fun o ho => mainSpec_mem s o (by simp [ho])) argv b (by intro q hq; simp at hq) hp
 
 /-- every positional is bound when the extended parser accepts -/
 theorem parseX_bound (s : CliSpec) (h : OptsStd s) (argv : List String) (b : Ns) (hp : parseX s argv = .ok b) :
     ∀ o ∈ positionals s, ∃ v, (o.dest, v) ∈ b := by
-  have hK : EngInv (mainBind s) (fun o => o ∈ s.opts)
+  have hK : EngInv (mainBind s) (fun o => o ∈ s.opts) (fun o => o ∈ s.opts)
       (fun ps ns => ∃ done, positionals s = done ++ ps ∧ ∀ o ∈ done, ∃ v, (o.dest, v) ∈ ns) := by
     refine ⟨?_, ?_⟩
     · intro o toks b' ps ns _ _ hk
@@ -116,8 +117,8 @@ theorem parseX_bound (s : CliSpec) (h : OptsStd s) (argv : List String) (b : Ns)
         rw [mainBind_std' s o' (h o' ho)] at hb
         obtain ⟨v, hv⟩ := (bindBase_typed o' (h o' ho) toks b' hb).2
         exact ⟨v, List.mem_append_left _ hv⟩
-  have := engine_inv hK (mainSpec s) (mainSpec_arity s h) (fun o ho => mainSpec_mem s o ho) argv b
-    ⟨[], by simp [mainSpec], by simp⟩ hp
+  have := engine_inv hK (mainSpec s) (mainSpec_arity s h) (fun o ho => mainSpec_mem s o (by simp [ho]))
+    (fun o ho => mainSpec_mem s o (by simp [ho])) argv b ⟨[], by simp [mainSpec], by simp⟩ hp
   obtain ⟨done, h1, h2⟩ := this
   intro o ho
   rw [h1] at ho
